@@ -91,7 +91,7 @@ def site_adm(site, adm_id):
     return adms['d1']
 
 
-def network_adm(name, adm_id, ends, kinds=None):
+def network_adm(name, adm_id, ends, kinds=None, extra=False):
     """ends: list of (site, uplink) shared with site models, plus an own exchange switch when ends has one member"""
     t = SubstrateTopology()
     ps = []
@@ -107,12 +107,18 @@ def network_adm(name, adm_id, ends, kinds=None):
     for i, p in enumerate(ps):
         # which kinds of delegation the (shared) port carries in this model: both, labels only or capacities only
         annotate(arm, p.node_id, (kinds[i] if kinds and i < len(kinds) else 'LC') + '@d1')
+    if extra:
+        # this model's copy of the first shared port carries a plain property the site model's copy does not have
+        arm.update_node_property(node_id=ps[0].node_id, prop_name='Details', prop_val=f'as seen from {name}')
     adms = arm.generate_adms(delegation_guids={'d1': adm_id})
     arm.delete_graph()
     return adms['d1']
 
 
 FAMILIES = {
+    # shared elements whose copies differ in a plain property: the combined element has the properties of the copy that
+    # brought it in (the merge code's 'use CBM' rule), whatever is merged onto it later
+    'F2x': [('site', 'A', 'ADM-A'), ('net', 'N2', 'ADM-N2', (('A', 2),), None, True)],
     'F3': [('site', 'A', 'ADM-A'), ('site', 'B', 'ADM-B'), ('net', 'N1', 'ADM-N1', (('A', 1), ('B', 1)))],
     'F4': [('site', 'A', 'ADM-A'), ('site', 'B', 'ADM-B'), ('net', 'N1', 'ADM-N1', (('A', 1), ('B', 1))),
            ('net', 'N2', 'ADM-N2', (('B', 2),))],
@@ -155,23 +161,25 @@ class CBMModel(Model):
             if spec[0] == 'site':
                 site_adm(spec[1], spec[2])
             else:
-                network_adm(spec[1], spec[2], spec[3], spec[4] if len(spec) > 4 else None)
+                network_adm(spec[1], spec[2], spec[3], spec[4] if len(spec) > 4 else None, spec[5] if len(spec) > 5 else False)
             self.adm_ids.append(spec[2])
         self.sources = {a: graph_content(a) for a in self.adm_ids}
         self.merged = ()
         self.snap = None
+        self.creator = {}
 
     def cbm(self):
         return NxCBM('CBM')
 
     def snapshot(self):
-        return (world.snapshot_shared(), world.UUID_SEAM.counter, self.merged, self.snap)
+        return (world.snapshot_shared(), world.UUID_SEAM.counter, self.merged, self.snap, dict(getattr(self, 'creator', {})))
 
     def restore(self, s):
         world.restore_shared(s[0])
         world.UUID_SEAM.counter = s[1]
         self.merged = s[2]
         self.snap = s[3]
+        self.creator = dict(s[4])
         if not hasattr(self, 'sources'):
             self.adm_ids = [spec[2] for spec in FAMILIES[self.family]]
             self.sources = {a: graph_content(a) for a in self.adm_ids}
@@ -192,15 +200,22 @@ class CBMModel(Model):
             if k == 'merge':
                 self.cbm().merge_adm(adm=NetworkXADMGraph(graph_id=ev[1], importer=world.shared_importer()))
                 self.merged = tuple(sorted(self.merged + (ev[1],)))
+                for nid in self.sources[ev[1]][0]:
+                    self.creator.setdefault(nid, ev[1])
             elif k == 'unmerge':
                 self.cbm().unmerge_adm(graph_id=ev[1])
                 self.merged = tuple(x for x in self.merged if x != ev[1])
+                left = set()
+                for a in self.merged:
+                    left |= set(self.sources[a][0])
+                self.creator = {n: c for n, c in self.creator.items() if n in left}
             elif k == 'snapshot':
                 sid = self.cbm().snapshot()
-                self.snap = (sid, self.merged)
+                self.snap = (sid, self.merged, dict(self.creator))
             elif k == 'rollback':
                 self.cbm().rollback(graph_id=self.snap[0])
                 self.merged = self.snap[1]
+                self.creator = dict(self.snap[2])
                 self.snap = None
             return ('ok',)
         except Exception as e:
@@ -208,12 +223,15 @@ class CBMModel(Model):
             return ('raise', type(e).__name__, str(e)[:160], traceback.format_exc(limit=4))
 
     # -------------------------------------------------------------------------------------- reference union
-    def expected(self, merged):
+    def expected(self, merged, creator=None):
         nodes, edges = {}, {}
+        creator = self.creator if creator is None else creator
         for a in merged:
             an, ae = self.sources[a]
             for nid, d in an.items():
-                cur = nodes.setdefault(nid, {'props': {k: v for k, v in d.items() if k not in DELEG_PROPS + ('GraphID', 'StructuralInfo')},
+                # the plain properties of an element are those of the copy that brought it in (it may have been unmerged since)
+                src = self.sources[creator.get(nid, a)][0].get(nid, d)
+                cur = nodes.setdefault(nid, {'props': {k: v for k, v in src.items() if k not in DELEG_PROPS + ('GraphID', 'StructuralInfo')},
                                              'adms': set(), 'deleg': {p: {} for p in DELEG_PROPS}})
                 cur['adms'].add(a)
                 for p in DELEG_PROPS:
@@ -273,7 +291,7 @@ class CBMModel(Model):
             v.append(('leftover-graphs', f'{sorted(present - allowed)} {ctx}'))
         if self.snap:
             sn, se = graph_content(self.snap[0])
-            wn, we = self.expected(self.snap[1])
+            wn, we = self.expected(self.snap[1], self.snap[2])
             if set(sn) != set(wn) or set(se) != set(we):
                 v.append(('snapshot-content', ctx))
         cross = [1 for a, b in world.shared_store().graphs.edges()
@@ -300,7 +318,7 @@ REPLAY = MODELS
 
 def run(report):
     q = report.tier == 'quick'
-    for fam, depth in (('F2', 7), ('F2c', 6), ('F3', 6 if q else 8), ('F3m', 6 if q else 8), ('F4', 5 if q else 8)):
+    for fam, depth in (('F2', 7), ('F2x', 6), ('F2c', 6), ('F3', 6 if q else 8), ('F3m', 6 if q else 8), ('F4', 5 if q else 8)):
         g = bfs(report, fam, MODELS[fam], depth=depth, chunk=2,
                 rule=f'family {fam}: merge(X) / unmerge(X) / snapshot / rollback histories to depth {depth}; the combined graph is '
                      f'compared with the reference union of the merged set after every step (so equal sets reached by different '
